@@ -308,6 +308,7 @@ def run_real(sc, chooser=None, nthreads=None):
         "max_inflight": net.max_inflight,
         "dl_paths": sorted(parts(p) for p in d.get_downloaded_files_paths()),
         "has_errors": d.has_errors(), "has_missing": d.has_missing(),
+        "task_log": [(u, url[len(BASE) + 1:], kind) for u, url, kind in getattr(net, "task_log", [])],
     }
     fsutil.rmtree(root)
     return res, files
